@@ -37,4 +37,32 @@ CLAIMED = {
          "and the full-sample unit-weight estimator equals the exact evaluation. A change of a handle that is not an algebraically equal rewrite breaks the proof; the check then searches a grid "
          "over the domain for a point where gradient and derivative differ and reports it",
          _NOTE + "; the translator's reading of the accepted AST subset is trusted and cross-checked numerically against the Python handles on every run; mttkrps is modelled by its defining sum (its kernels are C02)", "DESIGN.md 7 (C12)"),
+ "C05": ("Lean 4 store/view model of NumPy storage (buffers, views with offset/shape/strides, F-contiguity computed) with soundness theorems for a static aliasing/purity analysis of every tabled operation + introspection-driven aliasing sweep of the real code",
+         "a store-passing model classifies NumPy steps as view / fresh / in-place; every tabled public operation (constructors with and without copying, copy, permute incl. identity and singleton-moving orders, "
+         "reshape, squeeze, find, conversions, element-wise operators, ttv/ttm/mttkrp, Kruskal in-place operations, the four __setitem__s, helpers, algorithm entry points) is proved for all stores, shapes, strides and "
+         "parameters to leave its operands unchanged and to return storage disjoint from them (or to change exactly its receiver), and disjoint storage is proved to make later writes invisible to the other side. "
+         "The sweep covers all 244 public methods found by introspection plus the algorithms: bitwise operand snapshots, np.shares_memory matrix, write-through in both directions, compared with the model",
+         _NOTE + "; the view/fresh classification of NumPy calls is trusted and tied to NumPy on every run by a primitive-level family; methods without a step-level entry are modelled as 'computed into new arrays' and checked on the implementation only. Two by-design known findings (sptensor.find, algorithms returning the caller's initial guess)", "DESIGN.md 7 (C05)"),
+ "C08": ("Lean 4 refinement/invariant theorems over any linear ordered field for an executable model of the ktensor re-parameterisations (norm, argsort, roots as lawful services) + differential correspondence",
+         "normalize (all argument patterns), arrange, fixsigns (alone and against any reference), redistribute, extract, tovec/from_vector/update round trips, tolist, +, -, unary -, scalar *, copy, isequal and score's "
+         "bookkeeping are proved for all shapes, orders and ranks to preserve the denoted array (or give the documented sum / multiple) and to reach the promised normal form (unit-or-zero columns in the requested norm, "
+         "non-negative weights, decreasing when sorted, all-one after absorption); the laws assumed of norm / argsort / root are discharged for the 1-, 2- and max-norm and a stable argsort. "
+         "Not proved (harness only): that score's greedy loop always returns, and the alignment normal form of fixsigns(reference)",
+         _NOTE + "; theorems assume an exact square root / N-th root, normalising operations are compared at 1e-12, algebra and round trips exactly", "DESIGN.md 7 (C08)"),
+ "C14": ("Lean 4 theorems: Gram matrix of every representation = unfolding Gram (entry-wise, exact), post-processing under an eigen-solver contract, equal-subspace and Ky Fan maximal-energy theorems + exact capture of the matrices handed to the solvers",
+         "for dense, sparse, Kruskal and Tucker holders the matrix the code hands to the eigen-solver is proved equal to the sum over the other modes of X[..a..]X[..b..] for all shapes and modes (hence identical across "
+         "representations); given orthonormal eigenpairs in any order the post-processing is proved to return r orthonormal eigenvectors for the r largest eigenvalues in decreasing order with the sign rule, two such families "
+         "above a spectral gap span the same subspace, and they capture the maximal energy (Ky Fan, proved in full). One known finding: the dense-solver path of sptensor.nvecs permutes rows (cannot be fixed without editing a doctest that encodes the wrong output)",
+         _NOTE + "; ARPACK/LAPACK enter as a service with the contract 'orthonormal eigenpairs (the r largest for eigsh)', checked at 1e-8 on every real call", "DESIGN.md 7 (C14)"),
+ "C15": ("Lean 4 refinement of both symmetrize versions and all issymmetric variants to the group-average specification over any ordered field + exact rational correspondence",
+         "for every well-formed tensor and every list of disjoint, in-range groups of equal-sized modes (proper subsets included) both dense symmetrize versions are proved to return the average over all within-group "
+         "mode permutations, the result is symmetric, symmetrising is idempotent and fixes symmetric tensors, the versions agree, every issymmetric variant answers true exactly for invariant tensors, malformed groups "
+         "are rejected, and Kruskal symmetrize yields a tensor symmetric in all modes that passes the Kruskal test; exact comparison on all shapes up to 36 cells with every choice of one or two groups",
+         _NOTE + "; ktensor.normalize('all') inside the Kruskal symmetrize is an oracle parameter", "DESIGN.md 7 (C15)"),
+ "C18": ("Lean 4 relational theorems about abstract algorithm models (interface-only access, observing print branch, draw streams, scaling and relabelling of the ALS / HOSVD / HOOI steps) + paired runs of the real decomposition drivers",
+         "proved: an iteration that touches the data only through the interface produces equal state sequences for data objects answering the interface alike (and CP-ALS's sweep is such an iteration, dense and sparse "
+         "holders answer alike, CP-APR's sparse sums equal its dense sums); a printing branch that only observes does not change the returned state for any interval (incl. CP-APR's in-place renormalisation); results are "
+         "functions of the draw stream; scaling the data scales the ALS update / HOSVD core / HOOI step and keeps the fit and the chosen ranks; consistent mode relabelling commutes with a sweep. "
+         "Whole-run CP-ALS scale equivariance is _partial (step simulation only) and validated on the implementation. Paired runs: dense vs sparse, printing intervals, equal seeds, scale factors, all relabellings for N=3",
+         _NOTE + "; that the real kernels compute the specification sums is C02's claim and a hypothesis here; paired runs are compared at 1e-8 (1e-6 for whole-run CP-ALS scaling); ill-conditioned pairs are tagged and not judged", "DESIGN.md 7 (C18)"),
 }
